@@ -40,7 +40,7 @@ type scnCfg struct {
 
 func (c scnCfg) String() string { b, _ := json.Marshal(c); return string(b) }
 
-var scenarios = []string{"first-deployment", "rolling-update", "canary-start", "promotion-validate", "promotion-auto", "failure-rollback", "node-removal", "settings-change", "migration"}
+var scenarios = []string{"first-deployment", "rolling-update", "canary-start", "promotion-validate", "promotion-auto", "failure-rollback", "node-removal", "settings-change", "migration", "pause-unpause-validate"}
 
 func scnDraw(rt *rapid.T, scenario string) scnCfg {
 	return scnCfg{Scenario: scenario, Nodes: rapid.IntRange(2, 4).Draw(rt, "nodes"), Affinity: rapid.Bool().Draw(rt, "affinity"),
@@ -66,7 +66,7 @@ func scnWorld(rec *evid.Rec, cfg scnCfg, monitors mon.Set) *World {
 	st.RollingUpdate.SlowStartIntervalDuration = &metav1.Duration{Duration: 5 * time.Second}
 	st.RollingUpdate.MaxParallelPodCreation = &cfg.Parallel
 	switch cfg.Scenario {
-	case "canary-start", "promotion-validate", "failure-rollback":
+	case "canary-start", "promotion-validate", "failure-rollback", "pause-unpause-validate":
 		pe, fe := true, true
 		pm, fm := int32(1), int32(2)
 		cn := &edsv1.ExtendedDaemonSetSpecStrategyCanary{Replicas: gen.ParseIntOrPercent(cfg.Replicas), ValidationMode: edsv1.ExtendedDaemonSetSpecStrategyCanaryValidationModeManual,
@@ -184,6 +184,25 @@ func scnScript(w *World, cfg scnCfg, stop func() bool) (milestones bool) {
 					_ = w.C.SetEDSAnnotation(k.Namespace, k.Name, oracle.AnnCanaryValid, rs.Name)
 				}
 			}
+		}
+		rounds(8)
+	case "pause-unpause-validate":
+		// the user pauses and unpauses the canary (as kubectl-eds does: both annotations each time) before validating it;
+		// the controller removes these annotations when the canary ends
+		waitFor(deployed, 25)
+		restartHistory()
+		w.editTemplate(k, 'B')
+		waitFor(canaryUp, 25)
+		_ = w.C.SetEDSAnnotation(k.Namespace, k.Name, oracle.AnnCanaryPaused, "true")
+		_ = w.C.SetEDSAnnotation(k.Namespace, k.Name, oracle.AnnCanaryUnpaused, "false")
+		rounds(2)
+		_ = w.C.SetEDSAnnotation(k.Namespace, k.Name, oracle.AnnCanaryPaused, "false")
+		_ = w.C.SetEDSAnnotation(k.Namespace, k.Name, oracle.AnnCanaryUnpaused, "true")
+		rounds(2)
+		if e := w.C.EDS(k.Namespace, k.Name); e != nil && e.Status.Canary != nil {
+			_ = w.C.SetEDSAnnotation(k.Namespace, k.Name, oracle.AnnCanaryValid, e.Status.Canary.ReplicaSet)
+		} else {
+			milestones = false
 		}
 		rounds(8)
 	case "promotion-auto":
@@ -412,7 +431,7 @@ func c11Judge(rec *evid.Rec, f fataler, cfg scnCfg, base, got *scnResult, plan s
 
 // TestC11Sampled: generated scenario configuration, failure-free run, then sampled single faults and pairs.
 func TestC11Sampled(t *testing.T) {
-	rec := evid.New("TestC11Sampled", "C11", "scenario of the corpus (first deployment, rolling update, canary start, promotion by validation and by time, failure and rollback by command / restart storm / timeout, node removal and taint, settings change, migration from a DaemonSet) with generated size and strategy; failure-free run records K controller API calls (reads included); then faulted re-runs with kind in {rejected with a generic error, rejected with the API status error typical for the verb (AlreadyExists / Conflict / TooManyRequests / ServerTimeout), applied-but-answer-lost, process stop before the call, process stop after the call} at sampled positions (and sampled pairs), controllers rebuilt after a stop, followed by failure-free fair rounds; oracle: every safety monitor after every step and final canonical state (pods per node with hash/readiness, status, replica sets) equal to the failure-free run; non-trivial = the fault hit a write; distinct by (config, position, kind)")
+	rec := evid.New("TestC11Sampled", "C11", "scenario of the corpus (first deployment, rolling update, canary start, promotion by validation and by time, failure and rollback by command / restart storm / timeout, node removal and taint, settings change, migration from a DaemonSet, pause + unpause + validation) with generated size and strategy; failure-free run records K controller API calls (reads included); then faulted re-runs with kind in {rejected with a generic error, rejected with the API status error typical for the verb (AlreadyExists / Conflict / TooManyRequests / ServerTimeout), applied-but-answer-lost, process stop before the call, process stop after the call} at sampled positions (and sampled pairs), controllers rebuilt after a stop, followed by failure-free fair rounds; oracle: every safety monitor after every step and final canonical state (pods per node with hash/readiness, status, replica sets) equal to the failure-free run; non-trivial = the fault hit a write; distinct by (config, position, kind)")
 	t.Cleanup(func() {
 		if !t.Failed() {
 			rec.Done()
